@@ -163,11 +163,11 @@ Section Declared.
 
   Lemma execute_declared_lemma ids o order rc :
     output_tasks w = [o] ->
-    g_keys_fresh p ids = true -> g_static_nokey p ids = true -> g_static_nocall p = true ->
+    g_keys_fresh p ids = true ->
     declared_eval apply ctx w order = Some rc -> (forall t, In t order <-> In t N) ->
     execute apply g ctx next ids = ROk (rget rc o).
   Proof.
-    intros Ho Hf Hk Hc Hr Hcov.
+    intros Ho Hf Hr Hcov.
     destruct (output_prepare o Ho) as [Hop HoN].
     assert (Hi : incl order N) by (intros x Hx; apply Hcov; exact Hx).
     pose proof (declared_to_prepared order rc Hr Hi) as Ht.
@@ -183,7 +183,7 @@ Section Declared.
                   (fun x (H : In x []) => match H with end)) as GL.
     specialize (GL ltac:(cbn; lia)). cbn [length] in GL. fold (topo_order p) in GL.
     assert (Hlen : length (topo_order p) = length (nodes p)) by lia.
-    destruct (execute_sound_lemma apply g ctx next ids (phi o) Hop Hf Hk Hc Hlen) as [v [Hv He]].
+    destruct (execute_sound_lemma apply g ctx next ids (phi o) Hop Hf Hlen) as [v [Hv He]].
     rewrite He. f_equal.
     (* the value of the sink does not depend on the order *)
     unfold ref_get in Hv. rewrite Hop, Hlen, Nat.eqb_refl in Hv. cbn [negb] in Hv.
